@@ -294,3 +294,9 @@ PROPS["C17"]["rule"] += "; kmer_laws: the derived codecs of the laws set through
 PROPS["C01"]["rule"] += "; Utf8Mix: an ASCII rejected byte and a multi-byte UTF-8 character (or two different ones) at every position pair, both orders, text entry points against the byte entry point"
 PROPS["C02"]["rule"] += "; variants flipping the same bit pattern in several machine words at once (every symbol; one symbol per word in all/two/three/alternate words); containers use a fixed-key hasher state"
 PROPS["C12"]["rule"] += "; ContainsMulti: operands of 2-5 machine words with the same (pattern, argument) symbol pair at one position of two, three, alternate or all words, or at every position"
+
+# round 9
+PROPS["C18"]["rule"] += "; reading INTO an existing value (Deserialize::deserialize_in_place through bincode and serde_json, for a Seq and for a Vec<Seq> whose elements are reused) over six target forms (empty, the same value, half, two longer, one symbol, n+70 symbols)"
+PROPS["C14"]["rule"] += "; depth-2 call sequences: each of the 16^3 codons as a priming call followed by every member of a family of related second queries (prefix, suffix, reversed, doubled, gap-padded at the front / back by 1,2,3,5,13,14, every single-position substitution) written into the same storage (a reused scratch buffer; the same position of a rewritten parent)"
+PROPS["C13"]["rule"] += "; sequences of 2^16+2..5 and 3*2^16+2..6 bases (window / chunk counts just past a 16-bit counter)"
+PROPS["C11"]["rule"] += "; lengths 2^16+3 and 3*2^16+5 (2-bit and 6-bit codecs)"
